@@ -65,6 +65,30 @@ def Lat.minN (bound : Nat) : Lat Nat where
   lfrom o := o
   atoms _ := []
 
+def intCompare (a b : Int) : Ordering := if a < b then .lt else if a = b then .eq else .gt
+
+/-- `Max<T>` for a signed integer type with `T::MIN = -(h+1)`, `T::MAX = h` -/
+def Lat.maxI (h : Nat) : Lat Int where
+  merge s o := if s < o then (o, true) else (s, false)
+  cmp s o := some (intCompare s o)
+  beq s o := s == o
+  isBot s := s == -((h : Int) + 1)
+  isTop s := s == (h : Int)
+  dflt := some (-((h : Int) + 1))
+  lfrom o := o
+  atoms _ := []
+
+/-- `Min<T>` for a signed integer type with `T::MIN = -(h+1)`, `T::MAX = h` -/
+def Lat.minI (h : Nat) : Lat Int where
+  merge s o := if o < s then (o, true) else (s, false)
+  cmp s o := some (intCompare s o).swap
+  beq s o := s == o
+  isBot s := s == (h : Int)
+  isTop s := s == -((h : Int) + 1)
+  dflt := some (h : Int)
+  lfrom o := o
+  atoms _ := []
+
 def boolLt (a b : Bool) : Bool := !a && b
 
 def boolCompare (a b : Bool) : Ordering :=
@@ -427,7 +451,7 @@ def Lat.vec (L : Lat β) : Lat (List β) where
 /-! ### the universe of shipped lattice types and their nestings -/
 
 inductive LTy where
-  | maxN (bound : Nat) | minN (bound : Nat) | maxB | minB | unit | conflict
+  | maxN (bound : Nat) | minN (bound : Nat) | maxI (h : Nat) | minI (h : Nat) | maxB | minB | unit | conflict
   | set | map (v : LTy) | withBot (t : LTy) | withTop (t : LTy)
   | pair (a b : LTy) | domPair (k v : LTy) | vec (t : LTy) | tri (a b c : LTy)
   deriving DecidableEq, Repr
@@ -435,6 +459,8 @@ inductive LTy where
 def Val : LTy → Type
   | .maxN _ => Nat
   | .minN _ => Nat
+  | .maxI _ => Int
+  | .minI _ => Int
   | .maxB => Bool
   | .minB => Bool
   | .unit => Unit
@@ -451,6 +477,8 @@ def Val : LTy → Type
 def lat : (t : LTy) → Lat (Val t)
   | .maxN b => Lat.maxN b
   | .minN b => Lat.minN b
+  | .maxI h => Lat.maxI h
+  | .minI h => Lat.minI h
   | .maxB => Lat.maxB
   | .minB => Lat.minB
   | .unit => Lat.unit
@@ -483,6 +511,7 @@ structure Sem (α : Type) where
 
 def Sem.leaf (α : Type) : Sem α := ⟨fun _ => True, fun a b => a = b⟩
 def Sem.bounded (bound : Nat) : Sem Nat := ⟨fun a => a ≤ bound, fun a b => a = b⟩
+def Sem.boundedI (h : Nat) : Sem Int := ⟨fun a => -((h : Int) + 1) ≤ a ∧ a ≤ (h : Int), fun a b => a = b⟩
 
 def Sem.set : Sem (List Nat) := ⟨fun s => s.Nodup, fun a b => ∀ x, x ∈ a ↔ x ∈ b⟩
 
@@ -522,6 +551,8 @@ def Sem.vec (S : Sem β) : Sem (List β) := ⟨fun l => ∀ x ∈ l, S.wf x, lis
 def sem : (t : LTy) → Sem (Val t)
   | .maxN b => Sem.bounded b
   | .minN b => Sem.bounded b
+  | .maxI h => Sem.boundedI h
+  | .minI h => Sem.boundedI h
   | .maxB => Sem.leaf Bool
   | .minB => Sem.leaf Bool
   | .unit => Sem.leaf Unit
